@@ -82,7 +82,7 @@ func runC04(res *Result, rng *RNG, tier string, outDir string) {
 	res.Rule = "random tokens (authority + 0-3 blocks; facts, recursive rules, checks with 1-3 alternative queries) and authorizer contents (facts, rules, checks, 0-4 ordered allow/deny policies); 10% error-prone (out-of-fragment) scenarios. The implementation's verdict (class + which checks failed) is compared with an independent reference decision procedure over the reference least model, and with the Coq model (which also pins the world's ordered fact list and query results). Non-trivial = at least one rule fires at authority level or in a block and the verdict depends on a check or policy; distinct by canonical scenario text."
 	n := 500
 	if tier == "thorough" {
-		n = 6000
+		n = 15000
 	}
 	var cs azCases
 	for i := 0; i < n; i++ {
@@ -224,7 +224,7 @@ func runC02(res *Result, rng *RNG, tier string, outDir string) {
 	res.Rule = "pairs (T, T+B) x one authorizer content: T random (authority + 0-2 blocks), B adversarial (facts copying authority predicates, the ground instances of every policy/check query body, rules deriving them from authority facts, symbols colliding with the authorizer's strings, with and without own checks). Property-directed oracle: Authorize(T+B) succeeds while Authorize(T) does not. Both runs are also predicted by the Coq model. Non-trivial = B non-empty and sharing a predicate name with T or the authorizer; distinct by canonical text."
 	n := 250
 	if tier == "thorough" {
-		n = 5000
+		n = 12000
 	}
 	var cs azCases
 	for i := 0; i < n; i++ {
@@ -457,7 +457,7 @@ func runC03(res *Result, rng *RNG, tier string, outDir string) {
 	res.Rule = "a base token with 1-3 later blocks versus variants in which the facts and rules (not the checks) of one later block are replaced by adversarial content, or a check-free block is inserted at a random position; the same authorizer content and query panel. Oracle: every verdict component other than the changed block's own checks (authorizer checks, authority checks, policy outcome, other blocks' checks), the authority-level world and all query results must be identical. Non-trivial = the replaced content is non-empty and shares predicate names with the rest; distinct by canonical text."
 	n := 220
 	if tier == "thorough" {
-		n = 4000
+		n = 10000
 	}
 	var cs azCases
 	for i := 0; i < n; i++ {
@@ -666,7 +666,7 @@ func runC12(res *Result, rng *RNG, tier string, outDir string) {
 	res.Rule = "each error-free scenario is presented (1) with facts, rules, checks and the queries inside checks shuffled in every block and in the authorizer (policies keep their order), (2) with variables renamed consistently per rule, (3) with an authorizer fact added twice, (4) with Authorize called a second and third time on the same authorizer. Oracle: verdict class, number of failed checks, the derived fact SET and query result SETS are identical across presentations. Non-trivial = at least 2 facts and 1 rule or check to permute; distinct by canonical text."
 	n := 130
 	if tier == "thorough" {
-		n = 4000
+		n = 8000
 	}
 	var cs azCases
 	for i := 0; i < n; i++ {
@@ -832,7 +832,7 @@ func runC13(res *Result, rng *RNG, tier string, outDir string) {
 	res.Rule = "histories of 2-5 rounds (add random facts/rules/checks/policies with Add* calls or, for a third of the rounds, as a snapshot loaded with LoadPolicies; then Authorize and/or Query, then Reset) on ONE authorizer, rounds of every outcome class (success, denied, no match, failed checks, run-limit error); the observations of the last round are compared with the same round on a freshly created authorizer for the same token. Non-trivial = the earlier rounds added at least one fact or rule; distinct by canonical history text."
 	n := 200
 	if tier == "thorough" {
-		n = 4000
+		n = 10000
 	}
 	var cs azCases
 	for i := 0; i < n; i++ {
@@ -1032,7 +1032,7 @@ func runC11(res *Result, rng *RNG, tier string, outDir string) {
 	res.Rule = "(a) programs of every outcome class (fixpoint reached, fact limit, iteration limit, ill-typed expression, division by zero, invalid rule with 0/1/>=2 matches) x limit grids placed just below / at / above the measured need, through Authorize; (b) both entry points (AuthorizerFor, Authorizer) x option lists: the limits in force (world and base world, before and after Reset) must equal the options supplied; (c) goroutine census (runtime.Stack filtered to datalog frames) after every evaluation, any outcome: must return to 0; a goroutine counts as stranded only when, after 2 s, none of the remaining datalog goroutines is running or runnable in three samples (a goroutine that still computes, or is slow to be scheduled, is not blocked); a slow program under a 10 ms maxDuration must report the timeout error. Non-trivial = the run hits a limit, an error, or needs >= 2 rounds; distinct by canonical text."
 	n := 250
 	if tier == "thorough" {
-		n = 2500
+		n = 6000
 	}
 	var cs azCases
 	base := datalogGoroutines()
